@@ -461,3 +461,51 @@ def types_runner(lines):
             else:
                 out[str(k)] = "reject | orc=FAIL(rejected for an unexpected reason %s: %s)" % (",".join(sorted(codes)), r["errors"][0]["message"][:120].replace("|", "/"))
     return out
+
+
+# ------------------------------------------------------------------------------------------------
+# C19: const_default in const items (one item per length and element type)
+# ------------------------------------------------------------------------------------------------
+
+FILL_TYS = {
+    "u8": ("u8", "0u8"), "u64": ("u64", "0u64"), "b3": ("[u8; 3]", "[0u8; 3]"),
+    "slot": ("Slot", "Slot { id: 7, wiped: false, secret: 0x1234 }"),
+    "nest": ("GenericArray<Slot, U3>", None),
+}
+FILL_PRELUDE = """use const_default::ConstDefault;
+#[derive(Clone, Copy, Debug, PartialEq)]
+pub struct Slot { id: u32, wiped: bool, secret: u64 }
+impl ConstDefault for Slot { const DEFAULT: Self = Slot { id: 7, wiped: false, secret: 0x1234 }; }
+"""
+
+
+def filldefault_item(line):
+    kv = kvs(line)
+    n, ty = int(kv["n"]), kv.get("kind", "u8")
+    T, d = FILL_TYS[ty]
+    cmp_ = ("A.iter().all(|x| *x == %s)" % d) if d else "A.iter().all(|r| r.iter().all(|x| *x == Slot { id: 7, wiped: false, secret: 0x1234 }))"
+    return (FILL_PRELUDE + "const A: GenericArray<%s, U%d> = GenericArray::const_default();\n"
+            "const B: GenericArray<%s, U%d> = <GenericArray<%s, U%d> as ConstDefault>::DEFAULT;\n"
+            "pub fn check() -> bool { A.len() == %d && %s && A == B && A == GenericArray::<%s, U%d>::const_default() }") % (T, n, T, n, T, n, n, cmp_, T, n)
+
+
+def filldefault_runner(lines):
+    import concurrent.futures
+    items = [(str(k), filldefault_item(l)) for k, l in enumerate(lines)]
+    parts = [items[i::8] for i in range(8) if items[i::8]]
+    with concurrent.futures.ThreadPoolExecutor(max_workers=8) as ex:
+        results = list(ex.map(lambda p: corpus.accept_bundle(p)[0], parts))
+    verdict = {}
+    for r in results:
+        verdict.update(r)
+    out = {}
+    for k, l in enumerate(lines):
+        v = verdict.get(str(k), "reject:?")
+        n = int(kvs(l)["n"])
+        if v in ("ok", "ok-alone"):
+            out[str(k)] = "len=%d all_default=1 | orc=ok" % n
+        elif v.startswith("FAIL"):
+            out[str(k)] = "len=%d all_default=0 | orc=FAIL(an element of the constant default is not T::DEFAULT, or compile time and run time differ)" % n
+        else:
+            out[str(k)] = "rejected | orc=FAIL(%s)" % v.replace("|", "/")[:220]
+    return out
